@@ -109,8 +109,10 @@ def rf(rng, lo=-3, hi=2, dens=(1, 2, 3, 4)):
 
 
 def gen_cfg(rng, thorough):
-    kind = rng.choice(['GI', 'GI', 'IMEX', 'EXPL', 'MI'])
+    kind = rng.choice(['GI', 'GI', 'IMEX', 'EXPL', 'MI', 'MASS'])
     nl = rng.choice([1, 1, 2, 2, 3] if thorough else [1, 1, 2, 2])
+    if kind == 'MASS':
+        nl = 1          # the mass sweeper needs its own base transfer class for several levels; single-level (multi-step) runs here
     dim = rng.choice([1, 2])
     nn = sorted([rng.choice([2, 3, 4]) for _ in range(nl)], reverse=True)
     quad = rng.choice(['RADAU-RIGHT', 'RADAU-RIGHT', 'LOBATTO', 'GAUSS'])
@@ -125,6 +127,9 @@ def gen_cfg(rng, thorough):
             lv.update(lam=lam, c=c, QE=rng.choice(['EE', 'PIC']))
         elif kind == 'MI':
             lv.update(lam1=lam, c1=c, lam2=lamE, c2=c, Q1=lv['QI'], Q2=rng.choice(['IE', 'LU']))
+        elif kind == 'MASS':
+            lv.update(lamI=lam, cI=c, lamE=lamE, muE=mu, cE=c, QE=rng.choice(['EE', 'PIC']), mass=tuple(F(rng.randint(1, 4), 2) for _ in range(dim)),
+                      QI=rng.choice(['IE', 'LU']))
         else:
             lv.update(lamI=lam, cI=c, lamE=lamE, muE=mu, cE=c, QE=rng.choice(['EE', 'PIC']))
         levels.append(lv)
@@ -137,6 +142,10 @@ def gen_cfg(rng, thorough):
                nsweeps=rng.choice([1, 1, 2]) if nl == 1 else [rng.choice([1, 2])] + [1] * (nl - 1),
                initial_guess=rng.choice(['spread', 'spread', 'copy', 'zero']), all_to_done=rng.random() < 0.2,
                finter=rng.random() < 0.3, do_coll_update=(quad == 'GAUSS') or rng.random() < 0.2)
+    if kind == 'MASS':
+        cfg['do_coll_update'] = False
+        for lv in cfg['levels']:
+            lv['quad_type'] = 'RADAU-RIGHT'
     if kind in ('IMEX', 'MI') and cfg['finter']:
         cfg['finter'] = False     # FracF2 has no subtraction; values-only prolongation
     if cfg['num_procs'] > 1 and (quad == 'GAUSS' or cfg['do_coll_update']):
@@ -152,15 +161,16 @@ def gen_cfg(rng, thorough):
     return cfg, u0, F(0), cfg['dt'] * nsteps
 
 
-def defect_norm(snap, Q, M, rtype, imex):
+def defect_norm(snap, Q, M, rtype, imex, mass=None):
     u, f, tau, dt = snap['u'], snap['f'], snap['tau'], snap['dt']
     dim = len(u[0])
+    mm = mass if mass is not None else [1] * dim      # imex_1st_order_mass (finest level): M (u0 - u_m) instead of u0 - u_m
 
     def ft(j, x):
         return (f[j][0][x] + f[j][1][x]) if imex else f[j][x]
     norms = []
     for m in range(1, M + 1):
-        r = [u[0][x] + dt * sum(Q[m][j] * ft(j, x) for j in range(1, M + 1)) + (tau[m - 1][x] if tau[m - 1] is not None else 0) - u[m][x]
+        r = [mm[x] * (u[0][x] - u[m][x]) + dt * sum(Q[m][j] * ft(j, x) for j in range(1, M + 1)) + (tau[m - 1][x] if tau[m - 1] is not None else 0)
              for x in range(dim)]
         norms.append(max(abs(v) for v in r))
     n0 = max(abs(v) for v in u[0])
@@ -199,7 +209,10 @@ def run(ck):
         key = (cfg['kind'], len(cfg['levels']), cfg['num_procs'], cfg['maxiter'], str(cfg['restol']), cfg['residual_type'],
                cfg['mssdc_jac'], cfg['predict_type'], str(cfg['nsweeps']), cfg['initial_guess'], cfg['all_to_done'])
         ck.case(key=key, sample={k: (str(v) if not isinstance(v, (int, bool, str, type(None))) else v) for k, v in cfg.items() if k != 'levels'})
-        imex = cfg['kind'] in ('IMEX', 'MI')      # two-part right-hand sides
+        imex = cfg['kind'] in ('IMEX', 'MI', 'MASS')      # two-part right-hand sides
+        mass = list(cfg['levels'][0]['mass']) if cfg['kind'] == 'MASS' else None
+        lvQ = [([[Lx.sweep.coll.Qmat[a, b] for b in range(Lx.sweep.coll.num_nodes + 1)] for a in range(Lx.sweep.coll.num_nodes + 1)], Lx.sweep.coll.num_nodes)
+               for Lx in C.MS[0].levels]
         L0 = C.MS[0].levels[0]
         Q = [[L0.sweep.coll.Qmat[a, b] for b in range(L0.sweep.coll.num_nodes + 1)] for a in range(L0.sweep.coll.num_nodes + 1)]
         M = L0.sweep.coll.num_nodes
@@ -217,7 +230,7 @@ def run(ck):
                     continue
                 n_events += 1
                 ck.traces += 1
-                want = defect_norm(s0, Q, M, rtype, imex)
+                want = defect_norm(s0, Q, M, rtype, imex, mass)
                 if s0['residual'] != want:
                     ck.violation('reported residual differs from the defect recomputed from the level data (%s, %s, iter %d)' % (e['cb'], rtype, e['iter']),
                                  dict(meta, callback=e['cb'], slot=e['slot'], iter=e['iter'], reported=str(s0['residual']), recomputed=str(want)),
@@ -234,6 +247,17 @@ def run(ck):
                     if e['iter'] == 0 and maxiter > 0 and ps['sweeps'] == 0:
                         ck.violation('step finished at iteration 0 on the initial guess without any sweep (restol=%s met by the predictor)' % restol,
                                      dict(meta, residual=str(s0['residual'])), match={'kind': 'zero_sweep_stop'})
+            elif e['cb'] == 'post_sweep' and e['level'] is not None and e['level'] >= 1:
+                # the residual REPORTED for a coarse level right after its sweep is the defect of that level INCLUDING its FAS correction tau
+                sl = e['levels'][e['level']]
+                Ql, Ml = lvQ[e['level']]
+                n_events += 1
+                ck.traces += 1
+                wantl = defect_norm(sl, Ql, Ml, rtype, imex)
+                if sl['residual'] != wantl:
+                    ck.violation('reported residual of level %d differs from the defect (incl. tau) recomputed from the level data (post_sweep, %s, iter %d)' % (e['level'], rtype, e['iter']),
+                                 dict(meta, callback='post_sweep', level=e['level'], slot=e['slot'], iter=e['iter'], reported=str(sl['residual']), recomputed=str(wantl)),
+                                 match={'kind': 'residual_mismatch', 'residual_type': rtype, 'callback': 'post_sweep', 'level': 'coarse'})
             elif e['cb'] == 'post_sweep' and e['level'] == 0:
                 for kk in per_step:
                     if kk == (e['time'], e['slot']):
